@@ -171,7 +171,20 @@ fn main() {
             }
         }
     }
-    c.add_sweep(&format!("capabilities: all lists up to length {} over 8 shapes, long lists of 5..48 entries, x 2 placements", maxlen), ev, lists.len() as u64, true, J::obj());
+    // Other status bits set (every single bit but the list bit, and all of them).
+    let mut extras: Vec<u16> = (0..16).filter(|b| *b != 4).map(|b| 1u16 << b).collect();
+    extras.push(0xffef);
+    for l in lists.iter().take(40) {
+        for rev in [false, true] {
+            for &x in &extras {
+                ev += 1;
+                for (k, d) in c12::capability_walk_case_status(l, rev, x) {
+                    c.add_violation(Violation::new("C12", k, format!("status register {:#06x}: {}", x | if l.is_empty() { 0 } else { 0x10 }, d)), "capabilities", J::obj().set("kind", J::s("case")).set("case", J::s(d)), vec![]);
+                }
+            }
+        }
+    }
+    c.add_sweep(&format!("capabilities: all lists up to length {} over 8 shapes, long lists of 5..48 entries, x 2 placements; 40 lists x 16 further status-register contents", maxlen), ev, lists.len() as u64, true, J::obj());
     c.add_sample(J::obj().set("case", J::s("bar_info(slot 2) on Mem64{size 2^33, prefetchable} at 0x8_0000_0000 with command 0x0407 -> Memory{Width64, prefetchable, address, size}; command and BARs restored; sizing writes with decode off")));
     c.finish();
 }
